@@ -51,6 +51,12 @@ def run_property(pid, tier, seed, replay=None):
                     # elaborated without error in this run (Lean reports every failing declaration of the file);
                     # axioms cannot be audited without the .olean, so it is not counted as discharged
                     pass
+        # thorough tier: re-check the compiled property module with the toolchain's independent checker
+        if ok and tier == 'thorough':
+            rc, lo = core.run(['lake', 'env', 'leanchecker', props_mod], cwd=core.LEAN, timeout=1800)
+            res.extra['leanchecker'] = 'ok' if rc == 0 else 'FAILED'
+            if rc != 0:
+                res.ob_failures.append(('leanchecker:' + props_mod, lo[-1500:]))
         hyg = core.source_hygiene(pid, getattr(mod, 'MODULES', []) + [props_mod])
         for h in hyg:
             res.ob_failures.append(('hygiene', h))
